@@ -28,7 +28,7 @@ import random
 import shutil
 
 import yaml
-from rdflib import Literal, URIRef
+from rdflib import Graph, Literal, URIRef
 from rdflib.namespace import RDF, RDFS
 
 from rcc import harness as h
@@ -777,13 +777,27 @@ def _with_formats(seq, rot):
     return tuple(out)
 
 
+STALE = '# content of an older file that the export has to replace\n' * 400
+
+
+def _prefill(path):
+    """The target exists already and is longer than anything exported here: the export must replace it."""
+    with open(path, 'w', encoding='utf-8') as f:
+        f.write(STALE)
+
+
 def _written(path):
-    """write_file may add the extension of the serialisation to the name it was given"""
-    if os.path.exists(path):
-        return path
+    """(path, text) of the file the export wrote; write_file may add the extension of the serialisation to the
+    name it was given.  None if there is no file with new content."""
     d = os.path.dirname(path)
-    cand = [f for f in os.listdir(d) if f.startswith(os.path.basename(path))]
-    return os.path.join(d, cand[0]) if len(cand) == 1 else None
+    found = []
+    for name in sorted(os.listdir(d)):
+        if name.startswith(os.path.basename(path)):
+            with open(os.path.join(d, name), encoding='utf-8') as f:
+                text = f.read()
+            if text != STALE:
+                found.append((os.path.join(d, name), text))
+    return found[0] if len(found) == 1 else None
 
 
 def _judge_import(back, snaps, alt_snaps, fmt):
@@ -804,12 +818,15 @@ def _judge_import(back, snaps, alt_snaps, fmt):
     return [r for r in res if not r[1].startswith('dependency:')]     # judged (and listed as known) by run_roundtrip
 
 
-def _usage(instance, step, edited):
+def _usage(instance, nth, edited):
+    """nth: number of exports made before this one in the history; edited: the documents differ from what they
+    were when the writer in use was created"""
     if edited:
-        return 'export-after-edit-of-documents(%s-writer)' % instance
-    if step == 0:
+        return 'first-export-of-writer-created-before-edit' if (nth == 0 or instance == 'fresh') else \
+            'repeated-export-same-writer-after-edit'
+    if nth == 0:
         return 'first-export'
-    return 'repeated-export-same-writer' if instance == 'same' else 'later-export-fresh-writer'
+    return 'repeated-export-same-writer' if instance == 'same' else 'later-export-new-writer'
 
 
 def _writer_history(lim, label, base_docs, hist, instance, modeinfo, tier, seed, tag):
@@ -861,6 +878,7 @@ def _writer_history(lim, label, base_docs, hist, instance, modeinfo, tier, seed,
         elif kind == 'string':
             st, res = h.call(writer.get_rdf_str, fmt)
         else:
+            _prefill(path)
             st, res = h.call(writer.write_file, path, fmt)
         if st == 'exc':
             fail('export-does-not-raise', type(res).__name__, 'raised %r' % (res,))
@@ -870,16 +888,14 @@ def _writer_history(lim, label, base_docs, hist, instance, modeinfo, tier, seed,
             g = res
         else:
             if kind == 'file':
-                real = _written(path)
-                if real is None:
-                    fail('export-writes-file', 'write_file', 'no file written for %s' % path)
+                found = _written(path)
+                if found is None:
+                    fail('export-writes-file', 'write_file', 'no (single) file with new content for %s' % path)
                     continue
-                with open(real, encoding='utf-8') as f:
-                    res = f.read()
+                real, res = found
             if not isinstance(res, str):
                 fail('export-yields-text', kind, 'returned %s' % type(res).__name__)
                 continue
-            from rdflib import Graph
             st, g = h.call(lambda: Graph().parse(data=res, format=fmt))
             if st == 'exc':
                 fail('export-is-parsable', fmt, 'rdflib cannot parse the %s text: %r' % (fmt, g))
@@ -900,6 +916,8 @@ def _writer_history(lim, label, base_docs, hist, instance, modeinfo, tier, seed,
         if kind == 'file':
             st, back = h.call(lambda: RDFReader().from_file(real, fmt))
             os.remove(real)
+            if os.path.exists(path):
+                os.remove(path)
         else:
             st, back = h.call(lambda: RDFReader().from_string(res, fmt))
         if st == 'exc':
@@ -931,16 +949,18 @@ def _wrapper_writer_history(lim, docs2, hist, tier, seed, tag):
         if kind == 'string':
             st, res = h.call(writer.to_string, doc, rdf_format=fmt)
         else:
+            _prefill(path)
             st, res = h.call(writer.write_file, doc, path, rdf_format=fmt)
         if st == 'exc':
             fail('export-does-not-raise', type(res).__name__, 'raised %r' % (res,))
             continue
         if kind == 'file':
-            if not os.path.exists(path):
-                fail('export-writes-file', 'ODMLWriter.write_file', 'no file %s' % path)
+            found = _written(path)
+            if found is None:
+                fail('export-writes-file', 'ODMLWriter.write_file', 'no (single) file with new content for %s' % path)
                 continue
-            st, back = h.call(lambda: RDFReader().from_file(path, fmt))
-            os.remove(path)
+            st, back = h.call(lambda: RDFReader().from_file(found[0], fmt))
+            os.remove(found[0])
         else:
             st, back = h.call(lambda: RDFReader().from_string(res, fmt))
         if st == 'exc':
